@@ -301,7 +301,7 @@ def atie_part(ctx):
                 ctx.violation("ostype-witness", "a call on a path that is exactly a missing volume panics on a Windows-typed MemFS (%d witnesses)" % len(wp),
                               {"c17": desc("ostype-witness", "ostype", TAG), "case": " | ".join(c.split(" | ")[:len(o.split(" | ")) + 1]), "observed": o})
             if wrun.mism and not wp:
-                report_model_mismatches(ctx, wrun, "the fixed witnesses (missing volume) behave differently from the model (%d)")
+                report_model_mismatches(ctx, wrun, "the fixed witnesses (corpus/C17-witness.cases: missing volumes, RemoveAll ghosts) behave differently from the model (%d)")
     panics = [(c, o) for c, o in zip(s.cases, s.observed) if o.split(" | ")[-1].startswith("PANIC")]
     if panics:
         c, o = panics[0]
